@@ -77,8 +77,11 @@ def _load_dry_config_file(orchestrator: "Orchestrator", config_file: str, verbos
 
     with config_path.open("r", encoding="utf-8") as f:
         loaded = yaml.safe_load(f)
+    if loaded is not None and not isinstance(loaded, dict):
+        click.echo(f"Error: Config file must contain a mapping: {config_file}", err=True)
+        sys.exit(2)
     # An empty or comment-only file parses to None: nothing configured
-    config: dict[str, Any] = loaded if isinstance(loaded, dict) else {}
+    config: dict[str, Any] = loaded or {}
 
     # The file's repository-level ignore list applies to this run like for the other commands
     if isinstance(config.get("ignore"), list):
